@@ -99,6 +99,9 @@ def _drive(args):
         latin = (not via_cli and tid % 3 == 0) or tid % 10 == 5
         n = r.choice((1, 2, 5, 20)) if tid % 13 else 200
         rows = [gen_row(r, bc, cols, latin) for _ in range(n)]
+        if tid % 20 == 10:
+            enc, blocked, n = 'cp500', False, 4
+            rows = [{'MTI': '1240', 'DE2': '5%015d' % i, 'PDS0165': 'M' + ' ' * 646 + 'x'} for i in range(4)]
         text = to_csv(rows, cols)
         res = {'tid': tid, 'enc': enc, 'blocked': blocked, 'kind': 'ok', 'rin': [prow(x) for x in rows], 'rout': [],
                '_desc': '%d rows, %s, %s%s' % (n, enc, '1014' if blocked else 'vbs', ', via cli_run on real files' if via_cli else ''),
